@@ -56,8 +56,10 @@ def register(reg):
     reg.contract(DBK + '.backup_fs', params={'height': Int, 'tx_count': Int}, requires=['height >= 0'], raises={},
                  assumes_inv=False, maintains_inv=False,
                  ensures=[('pointers', 'self.fs_height == height and self.fs_tx_count == tx_count'),
-                          ('header-cache-truncated', 'self.header_mc.length <= old(self.header_mc.length)')],
-                 props=['C03'])
+                          ('header-cache-truncated', 'self.header_mc.length <= old(self.header_mc.length)'),
+                          # header count is one more than the height: no cached header hash of an undone block survives
+                          ('header-cache-covers-surviving-headers-only', 'self.header_mc.length <= height + 1')],
+                 props=['C03', 'C11'])
 
     # C04: a history flush writes only rows with the fresh flush id and the state record, in one atomic batch
     NEWKEY = 'exists(lambda x=Bytes: x in old(self.unflushed) and k == concat(x, beu_enc(self.flush_count, 2)))'
